@@ -295,12 +295,15 @@ def run(sh):
         p, t = pos[0::2], pos[1::2]
         m = min(len(p), len(t))
         p, t = p[:m], t[:m]
+        # ... preceded by one very slow half cycle (an infra-slow wave sampled at a high rate): a trough more than 10^5 samples before
+        # the first peak, so that the phase advances by a few 10^-5 rad per sample there
+        t = np.concatenate([[p[0] - int(rng.integers(110000, 250000))], t])
         mode = ['none', 'both'][int(rng.integers(0, 2))]
         r = d = None
         if mode == 'both':
             # midpoints strictly between the extrema they separate (rise: trough -> peak, decay: peak -> trough)
-            d = np.array([(a + b) // 2 for a, b in zip(p, t) if b - a >= 2])
-            r = np.array([(a + b) // 2 for a, b in zip(t[:-1], p[1:]) if b - a >= 2])
+            d = np.array([(a + b) // 2 for a, b in zip(p, t[1:]) if b - a >= 2])
+            r = np.array([(a + b) // 2 for a, b in zip(t[:-1], p) if b - a >= 2])
         before = attach.COUNTS['C17:outside_quantifier']
         call(sh, n, p, t, r, d, 'long_recording')
         inq = attach.COUNTS['C17:outside_quantifier'] == before
